@@ -753,6 +753,12 @@ def numeric(e, env: dict, model: Model | None = None, prec=50):
         if k in evmemo:
             return evmemo[k][1]
         r = ev0(e)
+        if isinstance(r, mp.mpc):
+            # asin(5), log(-1), (-2)**0.5: the model has no real value here, whatever is done with the result later
+            # (floor / abs / a product with 0 would turn it back into a real number)
+            if r.imag != 0:
+                raise RefError("complex intermediate value (outside the real domain)")
+            r = r.real
         if not isinstance(r, bool):
             _mag(r)
         evmemo[k] = (e, r)      # keeps e alive: ids of temporaries (expand_ccond) must not be reused
